@@ -344,6 +344,7 @@ pub fn run(args: &Args) -> i32 {
             let expect = match eval_query(p, edb) {
                 Ok(r) => r,
                 Err(EvalErr::Arith(_)) => continue,
+                Err(_) if prop == "C07" => BTreeSet::new(), // C07 is structural; R1 does not define recursive aggregates
                 Err(e) => {
                     run.machinery_error(format!("R1 cannot evaluate generated program {text:?}: {e:?}"));
                     return;
